@@ -43,6 +43,16 @@ Proof.
   exfalso. exact (I C i Hi).
 Qed.
 
+(* a connection serving a request the broker never answers does not stay in use: the request's deadline
+   is enabled and closes it — also in a closed group, where no other step would reach it *)
+Theorem tc_busy_bounded_proof : forall ls s i, run tc_step tc_init ls = Some s ->
+  nth_error (tc_conns s) i = Some TBusy ->
+  tc_step s (TDeadline i) = Some (tc_set i TClosed s) /\
+  (tc_closed s = true -> tc_step s (TRelease i) = Some (tc_set i TClosed s)).
+Proof.
+  intros ls s i _ H. unfold tc_step, tc_release. rewrite H. split; [reflexivity|]. intros C. rewrite C. reflexivity.
+Qed.
+
 (* the set-up that completes after its requester left: pooled while the group is open, closed once it is closed *)
 Theorem tc_late_setup_proof : forall ls s i, run tc_step tc_init ls = Some s ->
   nth_error (tc_conns s) i = Some (TSetup false) ->
